@@ -143,6 +143,11 @@ impl Pipe {
         }
         self.push_valid(&a, &[], Vec::new(), LenExp::Exactly(None), ReqPlan::simple(), "simple");
     }
+    /// bytes that the library itself answers (e.g. a malformed head: 400) without delivering
+    pub fn push_rejected(&mut self, bytes: Vec<u8>, label: &str, status: u16) {
+        self.reqs.push(raw_wire(bytes, label));
+        self.exp_responses.push(err_resp(status));
+    }
     /// a request on the wire that must not be delivered
     pub fn push_undelivered(&mut self, a: &AbsReq, body: &[u8], label: &str) {
         self.reqs.push(wire_of(a, body, label));
@@ -397,7 +402,18 @@ pub fn gen_c09(rng: &mut Rng, caseid: u64, unix: bool, bound_ms: u64) -> Gen {
     let plan = ReqPlan { read: consume.clone(), read_sizes: read_sizes(rng, len), as_reader_calls: 1, finish, pre_delay_us: 0, zero_read_after: zero, read_api: ReadApi::Read };
     let clabel = plan.read_label(len);
     let flabel = plan.finish_label();
+    // a quarter of the HTTP/1.1 requests announce `Expect: 100-continue` and (as RFC 7231
+    // 5.1.1 allows) send the body without waiting: the boundary must hold whether or not the
+    // application ever asks for the body
+    let expecting = !v10 && rng.chance(1, 4);
+    if expecting {
+        a.add("Expect", " 100-continue");
+    }
+    let asks = !matches!(plan.read, ReadPlan::None | ReadPlan::Upto(0));
     p.push_valid(&a, &wire_body, designated, LenExp::Any, plan, kind);
+    if expecting && asks {
+        p.exp_responses.last_mut().unwrap().interims = 1;
+    }
     let follow = rng.range(1, 3);
     for i in 0..follow {
         p.push_simple(caseid, i + 1 == follow && rng.chance(1, 2));
@@ -414,7 +430,7 @@ pub fn gen_c09(rng: &mut Rng, caseid: u64, unix: bool, bound_ms: u64) -> Gen {
     Gen {
         case,
         judge,
-        sig: if partial || clabel == "all-no-eof" || zero.is_some() { Some(format!("{}|{}|{}|{}|z{}|v10{}", kind, len, clabel, flabel, zero.is_some(), v10)) } else { None },
+        sig: if partial || clabel == "all-no-eof" || zero.is_some() { Some(format!("{}|{}|{}|{}|z{}|v10{}|e{}", kind, len, clabel, flabel, zero.is_some(), v10, expecting)) } else { None },
         extra: Default::default(),
     }
 }
@@ -508,7 +524,20 @@ pub fn gen_c10(rng: &mut Rng, caseid: u64, unix: bool, bound_ms: u64) -> Gen {
                 let mut b = format!("{} {} HTTP/1.1\r\nHost: h\r\nX-Data: abcdef\r\n\r\n", method, target).into_bytes();
                 let at = rng.below(b.len() - 4);
                 let at = if b[at] == b'\r' || b[at] == b'\n' { 1 } else { at };
-                b[at] = 0x80 + rng.below(0x80) as u8;
+                if rng.chance(1, 2) {
+                    // a single byte >= 0x80 (hardly ever valid UTF-8)
+                    b[at] = 0x80 + rng.below(0x80) as u8;
+                } else {
+                    // well-formed UTF-8: a letter, or Unicode white space that a `str::trim` would
+                    // strip (at the end of the request line or of a header line in particular)
+                    let seq: &[u8] = *rng.pick(&[&b"\xc3\xa9"[..], &b"\xc2\xa0"[..], &b"\xe3\x80\x80"[..], &b"\xe2\x80\x83"[..], &b"\xf0\x9f\x98\x80"[..]]);
+                    let line_ends: Vec<usize> = (0..b.len() - 1).filter(|i| b[*i] == b'\r' && b[*i + 1] == b'\n' && *i > 0 && b[*i - 1] != b'\n').collect();
+                    let pos = if rng.chance(1, 2) && !line_ends.is_empty() { *rng.pick(&line_ends) } else { at };
+                    let tail = b.split_off(pos);
+                    b.extend_from_slice(seq);
+                    b.extend_from_slice(&tail);
+                    class_label = "non-ascii-utf8".to_string();
+                }
                 p.reqs.push(raw_wire(b, &class_label));
                 stopped = true;
                 silent_close = true;
